@@ -698,6 +698,7 @@ type vxC17Case struct {
 	Post      int          `json:"post"` // queries after Close
 	TOLimit   int          `json:"timeout_limit,omitempty"` // >0: the deprecated global TimeoutLimit: a connection is closed after that many request timeouts (held queries time out)
 	Keyspace  bool         `json:"keyspace,omitempty"` // ClusterConfig.Keyspace set: every pool connection sends USE as its first request (so hs step 2 fails the USE)
+	CloseErr  bool         `json:"close_err,omitempty"` // closing a connection closes it and returns an error (as a TLS connection whose close_notify cannot be sent does)
 }
 
 const (
@@ -1270,6 +1271,10 @@ func vxC17Run(c *vxC17Case, k *vstats.Case) error {
 		}
 	}
 	cl := vnode.NewCluster(vxSpecs(c.Hosts, 2))
+	if c.CloseErr {
+		cl.PlanFor = func(string, int) vnode.Plan { return vnode.Plan{CloseErr: true} }
+		class("connections whose Close reports an error")
+	}
 	w := &vxC17World{c: c, cl: cl, dials: map[string]int{}, connIdx: map[int]int{}, conns: map[int]*vnode.ServerConn{},
 		dialStack: map[int]string{}, ready: map[int]bool{}, registered: map[int]bool{}, nreq: map[int]int{}, connectErrs: map[string]int{}, usedAt: map[int]time.Time{},
 		faultOff: make([]int32, c.Hosts), relaxed: make([]int32, c.Hosts)}
@@ -1893,6 +1898,7 @@ func vxC17DrawCase(t *rapid.T, small bool) *vxC17Case {
 	c.WaitHeld = rapid.Bool().Draw(t, "wait_held")
 	c.Post = rapid.IntRange(1, 4).Draw(t, "post")
 	c.Keyspace = rapid.IntRange(0, 2).Draw(t, "keyspace") == 0
+	c.CloseErr = rapid.IntRange(0, 3).Draw(t, "close_err") == 0
 	if rapid.IntRange(0, 7).Draw(t, "tolimit") == 0 {
 		// the limit bites when one connection collects limit+1 timeouts: one connection per host, at most two
 		// hosts, held queries that are never answered (added to the first group below)
